@@ -24,6 +24,29 @@ CLAIMED = {
               "descendant) to a well-formed graph whether the call returns or raises; hence every intermediate state of every history "
               "is well-formed. " + GRAPH_TIE),
         design='5 (C01)', technique='Lean 4 invariant proof by induction over operation histories + differential correspondence'),
+    'C05': dict(
+        text=("Theorems over the same model and invariant (Inv = well-formed + truthful owners + unique ids + bounded): C05_step/C05_run - no "
+              "operation, accepted or rejected, along any history can make two different tasks of one WBS or one detached tree share an id; "
+              "C05_reject_is_runtime - every rejection on a reachable state is RuntimeError (RecursionError cannot occur: fuel-sufficiency "
+              "lemmas; the only other exception class comes from reorder with unknown/repeated ids); C05_clash_rejected; C05_lookup_some/none - "
+              "wbs[id] returns the one member with that id and raises RuntimeError exactly when there is none; C05_tasks_members/preorder - "
+              "WBS.tasks lists every member exactly once, each directly followed by its descendants, siblings in list order. " + GRAPH_TIE),
+        design='5 (C05)', technique='Lean 4 invariant proof (joint invariant, induction over histories) + differential correspondence'),
+    'C11': dict(
+        text=("Theorems: C11_step/C11_run - the owner back-pointer stays truthful (inherited along the parent edge, a WBS root owns itself, "
+              "a parentless ordinary task has none) under every operation and history; C11_member_iff - a task reports WBS w exactly when it "
+              "is in w.tasks; C11_none_iff; C11_released - tasks left out of an accepted children/roots assignment (hence remove, remove_all, "
+              "WBS.remove) report no owner with their whole subtree; C11_reattach - a released subtree whose ids do not clash is accepted by "
+              "another WBS. " + GRAPH_TIE),
+        design='5 (C11)', technique='Lean 4 invariant proof + differential correspondence'),
+    'C15': dict(
+        text=("PARTIAL. Theorem C15_partial: on every reachable state every mutator except the three element-wise list-level operations "
+              "(task_list << x, task_list >> x, bulk attribute assignment on a task list) leaves the state literally unchanged when it raises; "
+              "its core is C15_children_validated_no_inner_raise (once the children setter's up-front validation passed, none of the inner "
+              "parent-setter calls can raise - needs the joint invariant and fuel sufficiency). The full statement is false on the code for the "
+              "three excluded operations: C15_full_fails is a kernel-checked counterexample, replayed on the implementation on every run and "
+              "listed as known findings KF-G12a/b/c; any other violation is reported. " + GRAPH_TIE),
+        design='5 (C15)', technique='Lean 4 proof (atomicity lemma) + differential correspondence; known findings for element-wise list ops'),
     'C17': dict(
         text=("Theorems for every calendar definition, date, search start, direction and horizon: the model of calendar.py/resource.py "
               "evaluates every valid definition to the meaning C17 states (C17_eval_den), constructors reject exactly the invalid "
